@@ -21,6 +21,10 @@ record kinds the BundleWriter emits (literals handed to the add_*_record helpers
 encoder accepts, and every one is handled by RevisionInstaller._install_in_write_group.
 Added while testing against seeded changes: Also: decode_name(encode_name(kind, rev, file)) round-trips for ids with
 '/' (abstract evaluation); _verify_patch's normalising substitutions only rewrite line ends.
+testament-always-compared: BundleInfo._validate_revision (0.8/0.9 bundles) evaluates the comparison of the recomputed
+testament hash with the recorded one on every normal path, and a mismatch raises TestamentMismatch.
+install-order-presence: the v4 writer emits inventory records before revision records; consequently the installer's
+inventory code asks the inventories store — never the revision store — whether a parent is present.
 Does not decide: testament equality of the installed revisions; detection of a tampered patch (hash checks are value
 computations).
 """
@@ -177,8 +181,44 @@ def run(ctx):
     ctx.check("bundle-kinds", f"{V4}:RevisionInstaller._install_in_write_group", emitted <= handled, f"every emitted kind {sorted(emitted)} is installed ({sorted(handled)})", construct=str(sorted(emitted - handled)), message=f"bundle record kinds {sorted(emitted - handled)} are written but never installed: those records are silently dropped when the bundle is applied")
     ctx.sample({"directive_keys": sorted(written), "markers": sorted(m.decode() for m in wm), "bundle_kinds": sorted(emitted)})
 
+    # ---- 0.8/0.9 bundles: every revision's testament is compared with the recorded hash (tamper detection) ---------
+    from ..cfg import build_cfg
+
+    BD = "breezy/bzr/bundle/bundle_data.py"
+    fv2 = repo.func(BD, "BundleInfo._validate_revision")
+    wv2 = f"{BD}:BundleInfo._validate_revision"
+    shas = [norm(n.targets[0]) for n in walk_own(fv2) if isinstance(n, ast.Assign) and isinstance(n.value, ast.Call) and call_attr(n.value) == "as_sha1"]
+    ctx.require(len(shas) == 1, f"{wv2}: the local holding <testament>.as_sha1() was not found ({shas})")
+    g2 = build_cfg(fv2).without_exc_edges()
+    cmp_t = [n.id for n in g2.nodes if n.kind == "test" and any(isinstance(c, ast.Compare) and len(c.ops) == 1 and isinstance(c.ops[0], (ast.Eq, ast.NotEq)) and shas[0] in (norm(c.left), norm(c.comparators[0])) and any(x.endswith(".sha1") for x in (norm(c.left), norm(c.comparators[0]))) for c in ast.walk(n.ast))]
+    skip = g2.exit in g2.reach([g2.entry], avoid=set(cmp_t), include_src=True)
+    w2 = g2.path([g2.entry], [g2.exit], avoid=set(cmp_t)) if skip and cmp_t else None
+    ctx.check("testament-always-compared", wv2, bool(cmp_t) and not skip, "every normal way through _validate_revision evaluates the comparison of the computed testament hash with the recorded one", construct="a path that never compares the testament", message="_validate_revision can finish without comparing the recomputed testament with the hash recorded in the bundle (e.g. when no hash is recorded): a 0.9 bundle — also the payload of format-1 merge directives — whose content was altered and whose sha1 line was dropped installs silently under the original revision id", witness=g2.show_path(w2) if w2 else None)
+    if cmp_t:
+        mism = [b for t in cmp_t for (b, l_) in g2.succ[t] if l_ == ("T" if any(isinstance(c, ast.Compare) and isinstance(c.ops[0], ast.NotEq) for c in ast.walk(g2.nodes[t].ast)) else "F")]
+        r2 = g2.reach(mism, include_src=True)
+        ctx.check("testament-always-compared", wv2, g2.exit not in r2 and any(isinstance(g2.nodes[i].ast, ast.Raise) and "TestamentMismatch" in norm(g2.nodes[i].ast) for i in r2 if g2.nodes[i].kind == "stmt"), "a mismatch raises TestamentMismatch")
+    callers = [q for q, f in repo.module(BD).functions().items() if any(call_attr(c) == "_validate_revision" for c in calls_in(f))]
+    ctx.check("testament-always-compared", BD, bool(callers), f"_validate_revision is called when a bundle revision tree is built ({callers})")
+    # ---- v4: inventories are written (and therefore installed) before revisions, so while inventories are installed the
+    # presence of a parent is asked of the inventories store, never of the revisions --------------------------------------
+    fw4 = repo.func(V4, "BundleWriteOperation.write_revisions")
+    lines = {"inv": [c.lineno for c in calls_in(fw4) if (call_attr(c) or "").startswith("_add_inventory") or (call_attr(c) == "_add_mp_records_keys" and c.args and const_value(c.args[0]) == "inventory")], "rev": [c.lineno for c in calls_in(fw4) if call_attr(c) == "_add_revision_texts"]}
+    ctx.require(lines["inv"] and lines["rev"], f"{V4}:BundleWriteOperation.write_revisions: inventory / revision writers not found")
+    inv_first = max(lines["inv"]) < min(lines["rev"])
+    ctx.check("install-order-presence", f"{V4}:BundleWriteOperation.write_revisions", True, f"record order: inventories {'before' if inv_first else 'after'} revisions")
+    if inv_first:
+        REV_QUERIES = {"has_revision", "has_revisions", "get_revision", "get_revisions", "get_parent_map", "all_revision_ids", "get_known_graph_ancestry"}
+        for qn in ("RevisionInstaller._get_parent_inventory_texts", "RevisionInstaller._install_inventory_records"):
+            f4 = repo.func(V4, qn)
+            badq = [f"L{c.lineno}:{norm(c)[:60]}" for c in calls_in(f4) if call_attr(c) in REV_QUERIES and ((call_recv(c) or "") in ("self._repository", "self._repository.revisions") or (call_recv(c) or "").endswith(".revisions"))]
+            ctx.check("install-order-presence", f"{V4}:{qn}", not badq, f"{qn} does not ask the revision store whether a parent is present", construct="; ".join(badq), message=f"{qn} decides whether a parent inventory is present by asking for the *revision* ({badq}): a v4 bundle installs all its inventories before any revision, so a parent carried by the same bundle is taken for a ghost, dropped from the multi-parent diff's parents, and a valid bundle fails to install (or reconstructs another text) as soon as the parent text is not in the cache")
+        f4 = repo.func(V4, "RevisionInstaller._get_parent_inventory_texts")
+        ctx.check("install-order-presence", f"{V4}:RevisionInstaller._get_parent_inventory_texts", any(call_attr(c) == "get_parent_map" and (call_recv(c) or "").endswith(".inventories") for c in calls_in(f4)), "presence of parent inventories is asked of the inventories store")
 
 MUTANTS = [
+    Mutant("0.9 bundle without a recorded hash is accepted", "breezy/bzr/bundle/bundle_data.py", "        if sha1 != rev_info.sha1:\n            raise TestamentMismatch(rev.revision_id, rev_info.sha1, sha1)\n", "        if rev_info.sha1 is None:\n            pass\n        elif sha1 != rev_info.sha1:\n            raise TestamentMismatch(rev.revision_id, rev_info.sha1, sha1)\n", expect="testament-always-compared"),
+    Mutant("parent inventories classified by revision presence", V4, "            present_parent_map = self._repository.inventories.get_parent_map(\n                parent_keys\n            )\n", "            present_parent_map = self._repository.inventories.get_parent_map(\n                parent_keys\n            )\n            present_parent_map = {k: v for k, v in present_parent_map.items() if self._repository.has_revision(k[-1])}\n", expect="install-order-presence"),
     Mutant("verification ignores runs of blanks", MD, "        # Strip trailing whitespace\n        calculated_patch = re.sub(b\" *\\n\", b\"\\n\", calculated_patch)\n        stored_patch = re.sub(b\" *\\n\", b\"\\n\", stored_patch)\n", "        # Strip trailing whitespace\n        calculated_patch = re.sub(b\"[ \\t]+\", b\" \", re.sub(b\" *\\n\", b\"\\n\", calculated_patch))\n        stored_patch = re.sub(b\"[ \\t]+\", b\" \", re.sub(b\" *\\n\", b\"\\n\", stored_patch))\n", expect="verify-normalises-line-ends-only"),
     Mutant("file ids written unescaped", V4, "        names = [\n            n.replace(b\"/\", b\"//\")\n            for n in (content_kind.encode(\"ascii\"), revision_id, file_id)\n            if n is not None\n        ]\n", "        names = [content_kind.encode(\"ascii\")]\n        if revision_id is not None:\n            names.append(revision_id.replace(b\"/\", b\"//\"))\n        if file_id is not None:\n            names.append(file_id)\n", expect="record-name-roundtrip"),
     Mutant("source_branch no longer written", MD, "        for key in (\"source_branch\", \"message\"):\n            if self.__dict__[key] is not None:", "        for key in (\"message\",):\n            if self.__dict__[key] is not None:", expect="directive-keys"),
